@@ -258,6 +258,91 @@ func c06body(c c06cfg) func(x *vsched.Exec) {
 	}
 }
 
+
+type c06countMap struct {
+	c06map
+	sets *int
+}
+
+func (c *c06countMap) Set(k string, v RedisMessage) { *c.sets++; c.c06map.Set(k, v) }
+
+// c06late: a directed program for stores that look the value up and register the flight in two steps. Two readers miss
+// on GET k at the same time; the second read reaches the server right after another client's SET k (so the
+// invalidation precedes its reply on the wire) and its reply is withheld for 10ms. A third reader asks 5ms later: the
+// invalidation has been processed by then, so it must not be served the value from before the SET.
+func c06late(adapter bool) func(x *vsched.Exec) {
+	return func(x *vsched.Exec) {
+		execs := 0
+		wrote := false
+		sets := 0
+		e := vwNew(func(o *ClientOption, srv *simredis.Server, n *simnet.Net) {
+			srv.Do("SET", "k", "v1")
+			if adapter {
+				o.NewCacheStoreFn = func(CacheStoreOption) CacheStore {
+					return NewSimpleCacheAdapter(&c06countMap{c06map: c06map{m: map[string]RedisMessage{}}, sets: &sets})
+				}
+			}
+			n.Script = func(cn *simnet.Conn, argv []string) int {
+				if strings.ToUpper(argv[0]) != "EXEC" {
+					return simnet.FaultNone
+				}
+				execs++
+				if execs == 2 && !wrote {
+					wrote = true
+					srv.Do("SET", "k", "v2") // another client's write lands just before this read
+					vsched.AddTimer(10*time.Millisecond, func() { cn.Release() })
+					return simnet.FaultStall
+				}
+				return simnet.FaultNone
+			}
+		})
+		if e.err != nil {
+			x.Fail("client setup failed", "%v", e.err)
+			return
+		}
+		type obs struct {
+			who, val string
+			hit      bool
+			at       time.Duration
+			err      error
+		}
+		var out []obs
+		read := func(who string) {
+			m, err := e.client.DoCache(context.Background(), e.client.B().Get().Key("k").Cache(), time.Hour).ToMessage()
+			v, _ := m.ToString()
+			out = append(out, obs{who, v, m.IsCacheHit(), x.Elapsed(), err})
+		}
+		if adapter {
+			// place r0 in the window between the adapter's look-up (read lock) and its registration (write lock) until
+			// the other reader's reply has been stored; the rest of the schedule stays explored
+			vsched.HoldAt("r0", "wlock", 1, func() bool { return sets > 0 })
+		}
+		vsched.GoNamed("r0", func() { read("r0") })
+		vsched.GoNamed("r1", func() { read("r1") })
+		vsched.GoNamed("r2", func() {
+			time.Sleep(5 * time.Millisecond)
+			if !wrote {
+				return // the two reads shared one request: nothing to observe in this schedule
+			}
+			read("r2")
+		})
+		if x.Run() != vsched.Quiescent {
+			return
+		}
+		var desc []string
+		for _, o := range out {
+			desc = append(desc, fmt.Sprintf("%s=%s(hit=%v,+%v)", o.who, o.val, o.hit, o.at))
+			if o.err != nil {
+				x.Fail("cached read failed although the server answered", "%s: %v", o.who, o.err)
+			}
+			if o.who == "r2" && o.val == "v1" {
+				x.Fail("stale value served after its invalidation was processed", "the server changed k to v2 and pushed the invalidation at +0s, before the reply to the second read (withheld until +10ms); a read started at +5ms returned %q (cache hit=%v); all reads: %v", o.val, o.hit, desc)
+			}
+		}
+		x.Outcome = fmt.Sprintf("second-request=%v %v", wrote, desc)
+	}
+}
+
 func TestVerif_C06(t *testing.T) {
 	vrun.Main(t, "C06", func(r *vrun.Run) {
 		r.Rule = "all interleavings within the preemption/delay bound of 1-2 cached readers (DoCache GET, MGET, DoMultiCache, MGetCache helper) and a foreign or own writer / flush on one connection, for opt-in, opt-out, broadcast, static-TTL modes and a NewSimpleCacheAdapter store; server sends invalidation pushes as Redis 7 does; non-trivial = schedule in which a thread blocked"
@@ -285,6 +370,13 @@ func TestVerif_C06(t *testing.T) {
 		}
 		for ci, c := range cfgs {
 			vexp.Run(r, vexp.Prog{Name: c.name, Delay: vrun.Pick(r, 1, 2), Budget: vsched.Budget{MaxPreempt: 2}, Opts: vsched.Options{Horizon: 8000}, Body: c06body(c), Seconds: r.Remaining() / float64(len(cfgs)-ci)})
+		}
+		for _, ad := range []bool{true, false} {
+			name := "late-second-request/lru"
+			if ad {
+				name = "late-second-request/adapter"
+			}
+			vexp.Run(r, vexp.Prog{Name: name, Delay: 1, Budget: vsched.Budget{MaxPreempt: vrun.Pick(r, 2, 3)}, Opts: vsched.Options{Horizon: 8000, MaxVirtual: time.Minute}, Body: c06late(ad), Seconds: vrun.Pick(r, 15.0, 90.0)})
 		}
 		r.Assume("fake server tracks keys and emits invalidation pushes like Redis 7 (self-invalidations after the reply, others immediately); OnInvalidations marks the moment the connection has processed an invalidation")
 	})
